@@ -37,6 +37,8 @@ def distribution(scripts):
         depth, sent, seen = 0, set(), set()
         for l in lines:
             w = l.split()
+            if w and w[-1].startswith("keep:"):
+                w = w[:-1]
             if not w:
                 continue
             ops[w[0]] += 1
@@ -145,6 +147,8 @@ class FrpProp(Prop):
         open_loops = []      # (slot, depth)
         for l in lines:
             w = l.split()
+            if w and w[-1].startswith("keep:"):
+                w = w[:-1]
             if not w:
                 continue
             if w[0] == "{":
@@ -283,6 +287,8 @@ def unlisten_oracle(lines, out):
     killers = {}
     for l in lines:
         w = l.split()
+        if w and w[-1].startswith("keep:"):
+            w = w[:-1]
         if w and w[0] == "listen_u":
             killers[w[1]] = w[3]
     if not killers:
@@ -393,6 +399,8 @@ def thunk_runs_oracle(lines, out):
     user = set()
     for k, l in enumerate(lines):
         w = l.split()
+        if w and w[-1].startswith("keep:"):
+            w = w[:-1]
         if not w:
             continue
         if w[0] == "lazy_new":
@@ -426,7 +434,7 @@ class C18(FrpProp):
     profile = Profile(w=W(router=12, filter=6), p_mem=0.2, p_def_in_txn=0.2, n_txn=(4, 12))
 
 
-HEAP_PROFILE = Profile(w=W(once=0, map_s=0, map_sl=0, sloop=4, cloop=4, accum=5, collect=4, defer=3, split=3, gate=4, value=4, updates=4, lift=8,
+HEAP_PROFILE = Profile(p_keep=0.3, w=W(once=0, map_s=0, map_sl=0, sloop=4, cloop=4, accum=5, collect=4, defer=3, split=3, gate=4, value=4, updates=4, lift=8,
                            map_c=6), p_mem=0.5, p_unlisten=0.3, weak=0.3, final_teardown=True, n_defs=(4, 12), n_txn=(3, 8),
                        p_sample=0.1)
 _HROW = re.compile(r"^(\d+):(.*):(\d):(\d+):(\d+):([\d.]*)$")
@@ -559,7 +567,7 @@ class C06(GcBacked):
     def extra_oracle(self, lines, out):
         return audit_oracle(lines, out)
     profile = Profile(w=W(sloop=4, cloop=4, switch_s=4, switch_c=4, accum=6, collect=5, defer=2, router=2), p_mem=0.7,
-                      n_txn=(5, 14), p_listen_late=0.3)
+                      n_txn=(5, 14), p_listen_late=0.3, p_keep=0.25)
 
 
 
@@ -570,6 +578,8 @@ def everything_dropped(lines):
     live, ls, lazies, depth, scoped = set(), {}, False, 0, set()
     for l in lines:
         w = l.split()
+        if w and w[-1].startswith("keep:"):
+            w = w[:-1]
         if not w:
             continue
         if w[0] in DEF_OPS:
@@ -626,7 +636,7 @@ class C07(GcBacked):
                     return "line %d: %s node(s) still alive after every handle was dropped, every listener unlistened and a collection ran" % (k + 1, n)
         return None
     profile = Profile(w=W(sloop=4, cloop=4, switch_s=4, switch_c=4, accum=6, collect=5, defer=2, router=2), p_mem=0.6,
-                      n_txn=(0, 8), final_teardown=True)
+                      n_txn=(0, 8), final_teardown=True, p_keep=0.25)
     counts = (6000, 60000)
 
 
@@ -634,4 +644,4 @@ class C09(FrpProp):
     pid = "C09"
     level_text = 'Theorems over the specification: clone/drop/gc map to ONop which changes nothing observable; occ/upd/cur depend on the tables only through lookup, so any reordering of definitions and listener registrations gives permuted-but-equal observations per listener (close_txn respects table permutation); the only choice left open is the order of deferred transactions of different sources. Refine_any_order: the engine result is independent of dependents/queue order. Tie: generated programs with handle churn and collections; metamorphic equality through the common oracle.'
     tag = "c09"
-    profile = Profile(w=W(sloop=3, cloop=3, switch_s=3, switch_c=3, defer=2, split=2), p_mem=0.5, n_txn=(4, 10))
+    profile = Profile(w=W(sloop=3, cloop=3, switch_s=3, switch_c=3, defer=2, split=2), p_mem=0.5, n_txn=(4, 10), p_keep=0.1)
